@@ -497,10 +497,11 @@ type callResult struct {
 	served   string
 	err      string
 	ret      string
+	bodyErr  string // how reading the body ended, if not cleanly (with the request context's state at that moment)
 }
 
 func (r callResult) String() string {
-	return fmt.Sprintf("{ran=%v consumer=%s code=%d body=%q served=%q err=%q ret=%q}", r.ran, r.consumer, r.code, r.body, r.served, r.err, r.ret)
+	return fmt.Sprintf("{ran=%v consumer=%s code=%d body=%q bodyErr=%q served=%q err=%q ret=%q}", r.ran, r.consumer, r.code, r.body, r.bodyErr, r.served, r.err, r.ret)
 }
 
 type echoTransport struct {
@@ -561,8 +562,15 @@ func mkOperation(i int, p callPlan, out *callResult) *runtime.ClientOperation {
 				out.consumer = fmt.Sprintf("%T", c)
 			}
 			out.code = r.Code()
-			b, _ := io.ReadAll(r.Body())
+			b, rerr := io.ReadAll(r.Body())
 			out.body = string(b)
+			if rerr != nil {
+				out.bodyErr = rerr.Error()
+				if cb, ok := r.Body().(*ctxBody); ok {
+					dl, has := cb.ctx.Deadline()
+					out.bodyErr += fmt.Sprintf(" (context: err=%v deadline=%v in %v)", cb.ctx.Err(), has, time.Until(dl))
+				}
+			}
 			out.served = r.GetHeader("X-Echo-Token")
 			return "ret-" + p.token, nil
 		})}
